@@ -44,15 +44,15 @@ func init() {
 		run: runC07,
 	})
 	addWitness(witness{Prop: "C07", Name: "break-on-empty-page", File: "pkg/core/keys.go",
-		Old: "\t\t// an empty page (e.g. all keys filtered out) is not the end of the listing: only the\n\t\t// absence of a continuation token is.\n\t\tif next == \"\" {",
-		New: "\t\tif len(ks) == 0 || next == \"\" {",
+		Old:    "\t\t// an empty page (e.g. all keys filtered out) is not the end of the listing: only the\n\t\t// absence of a continuation token is.\n\t\tif next == \"\" {",
+		New:    "\t\tif len(ks) == 0 || next == \"\" {",
 		Expect: "paging"})
 	addWitness(witness{Prop: "C07", Name: "filter-contains", File: "pkg/core/diamond.go",
 		Old: "if !strings.HasPrefix(path.Base(key), filter) {", New: "if !strings.Contains(path.Base(key), filter) {",
 		Expect: "filter"})
 	addWitness(witness{Prop: "C07", Name: "merge-state-per-page", File: "pkg/core/keys.go",
-		Old: "\tstates := make(map[string]stateMerge, settings.batchSize)\n\tfor batch := range inputChan {\n\t\tvar err error",
-		New: "\tfor batch := range inputChan {\n\t\tstates := make(map[string]stateMerge, settings.batchSize)\n\t\tvar err error",
+		Old:    "\tstates := make(map[string]stateMerge, settings.batchSize)\n\tfor batch := range inputChan {\n\t\tvar err error",
+		New:    "\tfor batch := range inputChan {\n\t\tstates := make(map[string]stateMerge, settings.batchSize)\n\t\tvar err error",
 		Expect: "merge-keys"})
 	addWitness(witness{Prop: "C07", Name: "batch-not-sorted", File: "pkg/core/split_list.go",
 		Old: "\t// sort result batch\n\tsort.Sort(bds)\n\treturn bds, nil", New: "\tsort.Sort(model.SplitDescriptors{})\n\treturn bds, nil",
@@ -519,6 +519,14 @@ func runC07(c *Ctx) {
 	}
 
 	// (4) mergeKeys
+	checkMergeKeysState(c)
+}
+
+
+// checkMergeKeysState is shared by several properties (the clause is necessary for each of them).
+func checkMergeKeysState(c *Ctx) {
+	p := c.P
+
 	{
 		f := p.Func("pkg/core.mergeKeys")
 		info := f.Info()
@@ -600,4 +608,5 @@ func runC07(c *Ctx) {
 			c.check(sa < sb, "merge-keys.done-before-running", pair[0], "-", sa+" sorts before "+sb, "the done descriptor key "+sa+" no longer sorts before the running one "+sb+": mergeKeys relies on that order")
 		}
 	}
+	_ = p
 }
